@@ -9,6 +9,7 @@ import (
 	"regexp"
 	"runtime"
 	"strings"
+	"sync"
 	"syscall"
 	"time"
 
@@ -386,6 +387,19 @@ func C13(c *ev.Ctx) {
 				rr13.Shuffle(len(order), func(i, j int) { order[i], order[j] = order[j], order[i] })
 				want := map[string][]byte{}
 				bad := ""
+				// earlier files that are deleted again (an implementation that recycles storage must not hand a live
+				// file's storage to the next creation)
+				for k := 0; k < 3; k++ {
+					pre := fmt.Sprintf("pre%d", k)
+					fsys.AtomicCreate("d", pre, acData(byte('p'+k), 50+k))
+					want[pre] = acData(byte('p'+k), 50+k)
+				}
+				fsys.Delete("d", "pre0")
+				delete(want, "pre0")
+				if round%2 == 1 {
+					fsys.Delete("d", "pre1")
+					delete(want, "pre1")
+				}
 				for k, nm := range order {
 					data := acData(byte('A'+k), 10+k*700)
 					if catchPanic(func() { fsys.AtomicCreate("d", nm, data) }) {
@@ -413,6 +427,51 @@ func C13(c *ev.Ctx) {
 					break
 				}
 			}
+		}
+	}
+
+	// (2d) many concurrent creators of DIFFERENT names on DirFs: every call returns and every file holds its own data
+	{
+		_ = os.RemoveAll(root)
+		_ = os.MkdirAll(filepath.Join(root, "d"), 0755)
+		_ = os.MkdirAll(filepath.Join(root, "e"), 0755)
+		fsys := filesys.NewDirFs(root)
+		var wg sync.WaitGroup
+		var mu sync.Mutex
+		panics := 0
+		nW, nF := 8, c.Pick(80, 400)
+		for g := 0; g < nW; g++ {
+			wg.Add(1)
+			go func(g int) {
+				defer wg.Done()
+				for i := 0; i < nF; i++ {
+					nm := fmt.Sprintf("w%d-%d", g, i)
+					if catchPanic(func() { fsys.AtomicCreate([]string{"d", "e"}[i%2], nm, acData(byte('a'+g), 20+i%300)) }) {
+						mu.Lock()
+						panics++
+						mu.Unlock()
+					}
+				}
+			}(g)
+		}
+		wg.Wait()
+		wrong := 0
+		first := ""
+		for g := 0; g < nW; g++ {
+			for i := 0; i < nF; i++ {
+				nm := fmt.Sprintf("w%d-%d", g, i)
+				b, err := os.ReadFile(filepath.Join(root, []string{"d", "e"}[i%2], nm))
+				if err != nil || !bytes.Equal(b, acData(byte('a'+g), 20+i%300)) {
+					wrong++
+					if first == "" {
+						first = fmt.Sprintf("%s: %d bytes, err %v", nm, len(b), err)
+					}
+				}
+			}
+		}
+		evaluations += nW * nF
+		if panics > 0 || wrong > 0 {
+			c.Violation("atomiccreate.concurrent-different-names", fmt.Sprintf("%d goroutines creating %d files each with names of their own: %d calls panicked, %d files do not hold exactly their data (first: %s): calls for different names disturb each other", nW, nF, panics, wrong, first), nil)
 		}
 	}
 
